@@ -102,6 +102,7 @@ type FBDNSDB struct {
 	handlerConfig HandlerConfig
 	cacheConfig   CacheConfig
 	reloadMu      sync.RWMutex
+	generation    uint64 // incremented by every successful reload, guarded by reloadMu
 	done          chan struct{}
 	lru           *lru.Cache
 	logger        Logger
@@ -362,6 +363,7 @@ func (h *FBDNSDB) Reload(s ReloadSignal) (err error) {
 	// if we didn't timeout and reloading finished without errors
 	h.dnsdb = newDB
 	h.dbConfig.Path = newPath
+	h.generation++
 	verifYield("reload.swapped")
 
 	if h.cacheConfig.Enabled && h.lru != nil {
@@ -381,9 +383,26 @@ func (h *FBDNSDB) Reload(s ReloadSignal) (err error) {
 // providing a consistent view on the DB during a query.
 // The Reader must be `Close`d when not needed anymore.
 func (h *FBDNSDB) AcquireReader() (db.Reader, error) {
+	r, _, err := h.acquireReaderGen()
+	return r, err
+}
+
+// acquireReaderGen is AcquireReader which also reports the DB generation the reader belongs to.
+func (h *FBDNSDB) acquireReaderGen() (db.Reader, uint64, error) {
 	h.reloadMu.RLock()
 	defer h.reloadMu.RUnlock()
-	return db.NewReader(h.dnsdb)
+	r, err := db.NewReader(h.dnsdb)
+	return r, h.generation, err
+}
+
+// cacheAdd caches a response computed from DB generation gen, unless a reload has happened since:
+// the reload purged the cache and the response would outlive the generation it was computed from.
+func (h *FBDNSDB) cacheAdd(gen uint64, key string, e cacheEntry) {
+	h.reloadMu.RLock()
+	defer h.reloadMu.RUnlock()
+	if gen == h.generation {
+		h.lru.Add(key, e)
+	}
 }
 
 // Close closes the database. It also takes care of closing the channel used
